@@ -88,6 +88,7 @@ Qed.
 
 (* ------------------------------------------------------------------ one call *)
 Section Gates.
+  Variable patched : bool.
   Variable strategy : features -> Z -> sdec.
   Variable c : constraints.
 
@@ -95,18 +96,18 @@ Section Gates.
   Definition inv (st : cstate) (g : ghost) : Prop :=
     match g_rec_time g with
     | None => st = cstate0 /\ g_pass_mode g = None /\ g_change_time g = None
-    | Some T => last_time st = T /\ g_pass_mode g = Some (last_mode st)
+    | Some T => last_time st = T /\ has_last st = true /\ g_pass_mode g = Some (last_mode st)
                 /\ is_allowed c (last_mode st) = true /\ exists C, g_change_time g = Some C
     end.
 
   Definition row_of (st : cstate) (o : obs) : row :=
-    let '(f, w, now) := o in mkRow now (strategy f w) (snd (select_config strategy st c f w now)).
+    let '(f, w, now) := o in mkRow now (strategy f w) (snd (select_config patched strategy st c f w now)).
   Definition next_state (st : cstate) (o : obs) : cstate :=
-    let '(f, w, now) := o in fst (select_config strategy st c f w now).
+    let '(f, w, now) := o in fst (select_config patched strategy st c f w now).
 
-  Lemma run_cons : forall st o l, run strategy st c (o :: l) = row_of st o :: run strategy (next_state st o) c l.
+  Lemma run_cons : forall st o l, run patched strategy st c (o :: l) = row_of st o :: run patched strategy (next_state st o) c l.
   Proof. intros st [[f w] now] l. reflexivity. Qed.
-  Lemma run_state_cons : forall st o l, run_state strategy st c (o :: l) = run_state strategy (next_state st o) c l.
+  Lemma run_state_cons : forall st o l, run_state patched strategy st c (o :: l) = run_state patched strategy (next_state st o) c l.
   Proof. intros st [[f w] now] l. reflexivity. Qed.
 
   (* the four branches of SelectConfig, as seen from outside *)
@@ -119,13 +120,13 @@ Section Gates.
       f64_lt (s_conf (r_raw (row_of st o))) (min_conf c) = false -> branch st o
   | B_held : passes c (row_of st o) = true -> recorded c (row_of st o) = false -> next_state st o = st ->
       d_mode (r_dec (row_of st o)) = last_mode st ->
-      is_zero_time (last_time st) = false ->
+      armed patched st = true ->
       sat_sub (r_now (row_of st o)) (last_time st) <? min_stab c = true -> branch st o
   | B_recorded : passes c (row_of st o) = true -> recorded c (row_of st o) = true ->
-      next_state st o = mkCstate (r_now (row_of st o)) (d_mode (r_dec (row_of st o))) ->
+      next_state st o = mkCstate (r_now (row_of st o)) (d_mode (r_dec (row_of st o))) true ->
       d_mode (r_dec (row_of st o)) = s_mode (r_raw (row_of st o)) ->
       is_allowed c (d_mode (r_dec (row_of st o))) = true ->
-      (is_zero_time (last_time st) = false ->
+      (armed patched st = true ->
        sat_sub (r_now (row_of st o)) (last_time st) <? min_stab c = true ->
        d_mode (r_dec (row_of st o)) = last_mode st) -> branch st o.
 
@@ -138,10 +139,10 @@ Section Gates.
     destruct (is_allowed c (s_mode (strategy f w))) eqn:E2.
     2:{ apply B_notallowed; unfold row_of, next_state, select_config, passes; cbn [r_raw r_dec r_now];
         rewrite ?E1, ?E2; reflexivity. }
-    destruct (negb (is_zero_time (last_time st)) && (sat_sub now (last_time st) <? min_stab c)
+    destruct (armed patched st && (sat_sub now (last_time st) <? min_stab c)
               && negb (String.eqb (s_mode (strategy f w)) (last_mode st))) eqn:E3.
     - apply andb_prop in E3 as [E3 E5]. apply andb_prop in E3 as [E3 E4].
-      apply negb_true_iff in E3. apply negb_true_iff in E5.
+      apply negb_true_iff in E5.
       apply B_held; unfold row_of, next_state, select_config, passes, recorded, passes;
         cbn [r_raw r_dec r_now]; rewrite ?E1, ?E2, ?E3, ?E4, ?E5; cbn [negb andb fst snd d_mode]; try reflexivity.
       rewrite String.eqb_sym. rewrite E5. reflexivity.
@@ -166,24 +167,37 @@ Section Gates.
   Lemma row_now : forall st f w now, r_now (row_of st (f, w, now)) = now.
   Proof. reflexivity. Qed.
 
-  Lemma inv_zero_init : forall st g, inv st g -> g_rec_time g = None -> is_zero_time (last_time st) = true.
-  Proof. intros st g H E. unfold inv in H. rewrite E in H. destruct H as [-> _]. reflexivity. Qed.
+  Lemma armed0 : armed patched cstate0 = false.
+  Proof. unfold armed. destruct patched; reflexivity. Qed.
+  Lemma armed_recorded : forall st, has_last st = true ->
+    armed patched st = patched || negb (is_zero_time (last_time st)).
+  Proof. intros st H. unfold armed. rewrite H. destruct patched; reflexivity. Qed.
 
   (* ---- per-call properties under the invariant *)
+  Lemma held_has_memory : forall st g, inv st g -> armed patched st = true ->
+    exists T, g_rec_time g = Some T /\ last_time st = T /\ has_last st = true
+              /\ g_pass_mode g = Some (last_mode st) /\ is_allowed c (last_mode st) = true
+              /\ exists C, g_change_time g = Some C.
+  Proof.
+    intros st g H Ha. unfold inv in H. destruct (g_rec_time g) as [T|].
+    - exists T. tauto.
+    - destruct H as [-> _]. rewrite armed0 in Ha. discriminate.
+  Qed.
+
   Lemma step_inv : forall st g o, inv st g -> inv (next_state st o) (ghost_step c g (row_of st o)).
   Proof.
     intros st g o H. destruct (select_branch st o) as [Hp Hs _ _|Hp Hs _ _|Hp Hr Hs Hm Hz Hlt|Hp Hr Hs Hm Ha _];
       unfold ghost_step; rewrite Hp, Hs; try exact H.
-    - (* held *) rewrite Hr. unfold inv in *. destruct (g_rec_time g) as [T|] eqn:ET.
-      + destruct H as [H1 [H2 [H3 [C H4]]]]. cbn [g_rec_time g_pass_mode g_change_time].
-        rewrite Hm. repeat split; try assumption.
-        unfold mode_changed. rewrite H2. rewrite String.eqb_refl. cbn [negb]. exists C. exact H4.
-      + destruct H as [-> _]. discriminate Hz.
-    - (* recorded *) rewrite Hr. unfold inv. cbn [g_rec_time g_pass_mode g_change_time last_time last_mode].
+    - (* held *) rewrite Hr.
+      destruct (held_has_memory st g H Hz) as [T [ET [H1 [H2 [H3 [H4 [C H5]]]]]]].
+      unfold inv. cbn [g_rec_time g_pass_mode g_change_time]. rewrite ET.
+      rewrite Hm. repeat split; try assumption.
+      unfold mode_changed. rewrite H3. rewrite String.eqb_refl. cbn [negb]. exists C. exact H5.
+    - (* recorded *) rewrite Hr. unfold inv. cbn [g_rec_time g_pass_mode g_change_time last_time last_mode has_last].
       repeat split; try assumption.
       unfold mode_changed. destruct (g_pass_mode g) as [m'|] eqn:EP; [|eexists; reflexivity].
       destruct (negb (String.eqb m' _)); [eexists; reflexivity|].
-      unfold inv in H. destruct (g_rec_time g) as [T|]; [destruct H as [_ [_ [_ HC]]]; exact HC|].
+      unfold inv in H. destruct (g_rec_time g) as [T|]; [destruct H as [_ [_ [_ [_ HC]]]]; exact HC|].
       destruct H as [_ [H2 _]]. congruence.
   Qed.
 
@@ -193,9 +207,8 @@ Section Gates.
     destruct (select_branch st o) as [_ _ Hm _|_ _ Hm _|_ _ _ Hm Hz _|_ _ _ _ Ha _].
     - rewrite Hm. reflexivity.
     - rewrite Hm. reflexivity.
-    - rewrite Hm. unfold inv in H. destruct (g_rec_time g) as [T|].
-      + destruct H as [_ [_ [H3 _]]]. rewrite H3. apply orb_true_r.
-      + destruct H as [-> _]. discriminate Hz.
+    - rewrite Hm. destruct (held_has_memory st g H Hz) as [T [_ [_ [_ [_ [H4 _]]]]]].
+      rewrite H4. apply orb_true_r.
     - rewrite Ha. apply orb_true_r.
   Qed.
 
@@ -209,28 +222,28 @@ Section Gates.
     - unfold passes in Hp. apply andb_prop in Hp as [Hp _]. rewrite Hp. reflexivity.
   Qed.
 
-  Lemma step_stability : forall st g o, inv st g -> stability_ok_step c g (row_of st o) = true.
+  (* the repaired code satisfies the strict statement, the code as found the one with the exception *)
+  Lemma step_stability : forall st g o, inv st g -> stability_ok_step patched c g (row_of st o) = true.
   Proof.
     intros st g o H. unfold stability_ok_step.
-    destruct (select_branch st o) as [Hp _ _ _|Hp _ _ _|Hp _ _ Hm _ _|Hp _ _ _ _ Hk]; rewrite Hp; try reflexivity.
+    destruct (select_branch st o) as [Hp _ _ _|Hp _ _ _|Hp _ _ Hm Hz _|Hp _ _ _ _ Hk]; rewrite Hp; try reflexivity.
+    - destruct (held_has_memory st g H Hz) as [T [ET [_ [_ [H3 _]]]]].
+      rewrite ET, H3, Hm. rewrite String.eqb_refl. destruct (_ && _); reflexivity.
     - unfold inv in H. destruct (g_rec_time g) as [T|]; [|reflexivity].
-      destruct H as [_ [H2 _]]. rewrite H2, Hm. rewrite String.eqb_refl.
-      destruct (_ && _); reflexivity.
-    - unfold inv in H. destruct (g_rec_time g) as [T|]; [|reflexivity].
-      destruct H as [H1 [H2 _]]. rewrite H2. subst T.
-      destruct (negb (is_zero_time (last_time st)) && (sat_sub (r_now (row_of st o)) (last_time st) <? min_stab c)) eqn:E;
-        [|reflexivity].
-      apply andb_prop in E as [E1 E2]. apply negb_true_iff in E1.
+      destruct H as [H1 [H2 [H3 _]]]. rewrite H3. subst T.
+      destruct ((patched || negb (is_zero_time (last_time st)))
+                && (sat_sub (r_now (row_of st o)) (last_time st) <? min_stab c)) eqn:E; [|reflexivity].
+      apply andb_prop in E as [E1 E2]. rewrite <- (armed_recorded st H2) in E1.
       rewrite (Hk E1 E2). apply String.eqb_refl.
   Qed.
 
   (* ---- monotone clocks: dwell time *)
   Definition mono_inv (prev : Z) (g : ghost) : Prop :=
     forall T, g_rec_time g = Some T ->
-      T <= prev /\ is_zero_time T = false /\ forall C, g_change_time g = Some C -> C <= T.
+      T <= prev /\ patched || negb (is_zero_time T) = true /\ forall C, g_change_time g = Some C -> C <= T.
 
   Lemma step_dwell : forall st g o prev, inv st g -> mono_inv prev g ->
-    prev <= r_now (row_of st o) -> is_zero_time (r_now (row_of st o)) = false ->
+    prev <= r_now (row_of st o) -> patched || negb (is_zero_time (r_now (row_of st o))) = true ->
     dwell_ok_step c g (row_of st o) = true /\ mono_inv (r_now (row_of st o)) (ghost_step c g (row_of st o)).
   Proof.
     intros st g o prev H M Hle Hnz. unfold dwell_ok_step, ghost_step.
@@ -238,8 +251,7 @@ Section Gates.
     - split; [reflexivity|]. intros T ET. destruct (M T ET) as [M1 [M2 M3]]. repeat split; [lia|assumption|assumption].
     - split; [reflexivity|]. intros T ET. destruct (M T ET) as [M1 [M2 M3]]. repeat split; [lia|assumption|assumption].
     - (* held: the mode does not change *)
-      assert (HP : g_pass_mode g = Some (last_mode st)).
-      { unfold inv in H. destruct (g_rec_time g) as [T|]; [tauto|]. destruct H as [-> _]. discriminate Hz. }
+      destruct (held_has_memory st g H Hz) as [T0 [ET0 [_ [_ [HP _]]]]].
       assert (HC : mode_changed g (d_mode (r_dec (row_of st o))) = false).
       { unfold mode_changed. rewrite HP, Hm, String.eqb_refl. reflexivity. }
       rewrite HC, Hr. split; [destruct (g_change_time g); reflexivity|].
@@ -251,8 +263,9 @@ Section Gates.
         destruct (mode_changed g (d_mode (r_dec (row_of st o)))) eqn:HC; [|reflexivity].
         unfold inv in H. destruct (g_rec_time g) as [T|] eqn:ET.
         2:{ destruct H as [_ [_ H3]]. congruence. }
-        destruct H as [H1 [H2 _]]. destruct (M T ET) as [M1 [M2 M3]]. subst T.
-        unfold mode_changed in HC. rewrite H2 in HC. apply negb_true_iff in HC.
+        destruct H as [H1 [H2 [H3 _]]]. destruct (M T ET) as [M1 [M2 M3]]. subst T.
+        unfold mode_changed in HC. rewrite H3 in HC. apply negb_true_iff in HC.
+        rewrite <- (armed_recorded st H2) in M2.
         destruct (sat_sub (r_now (row_of st o)) (last_time st) <? min_stab c) eqn:ES.
         * rewrite (Hk M2 eq_refl) in HC. rewrite String.eqb_refl in HC. discriminate.
         * pose proof (sat_sub_antitone (r_now (row_of st o)) C (last_time st) (M3 C EC)). lia.
@@ -268,7 +281,7 @@ Section Gates.
   Lemma run_forall : forall l st g, inv st g ->
     Forall (fun r => allowed_ok c r = true /\ min_conf_ok c r = true /\ d_conf (r_dec r) = s_conf (r_raw r)
                      /\ exists f w, r_raw r = strategy f w)
-           (run strategy st c l).
+           (run patched strategy st c l).
   Proof.
     induction l as [|o l IH]; intros st g H; [constructor|].
     rewrite run_cons. constructor.
@@ -278,7 +291,7 @@ Section Gates.
   Qed.
 
   Lemma run_stability : forall l st g, inv st g ->
-    trace_ok_from stability_ok_step c g (run strategy st c l) = true.
+    trace_ok_from (stability_ok_step patched) c g (run patched strategy st c l) = true.
   Proof.
     induction l as [|o l IH]; intros st g H; [reflexivity|].
     rewrite run_cons. cbn [trace_ok_from]. rewrite (step_stability st g o H). cbn [andb].
@@ -286,15 +299,16 @@ Section Gates.
   Qed.
 
   Lemma clock_mono_cons : forall prev f w now l,
-    clock_mono prev ((f, w, now) :: l) = true -> prev <= now /\ is_zero_time now = false /\ clock_mono now l = true.
+    clock_mono patched prev ((f, w, now) :: l) = true ->
+    prev <= now /\ patched || negb (is_zero_time now) = true /\ clock_mono patched now l = true.
   Proof.
     intros prev f w now l H. cbn [clock_mono] in H.
     apply andb_prop in H as [H H3]. apply andb_prop in H as [H1 H2].
-    apply negb_true_iff in H2. repeat split; [lia|assumption|assumption].
+    repeat split; [lia|assumption|assumption].
   Qed.
 
-  Lemma run_dwell : forall l st g prev, inv st g -> mono_inv prev g -> clock_mono prev l = true ->
-    trace_ok_from dwell_ok_step c g (run strategy st c l) = true.
+  Lemma run_dwell : forall l st g prev, inv st g -> mono_inv prev g -> clock_mono patched prev l = true ->
+    trace_ok_from dwell_ok_step c g (run patched strategy st c l) = true.
   Proof.
     induction l as [|o l IH]; intros st g prev H M Hc; [reflexivity|].
     rewrite run_cons. cbn [trace_ok_from]. destruct o as [[f w] now].
@@ -311,14 +325,15 @@ Section Gates.
 
   (* the remembered state after any history is what the history shows *)
   Lemma fold_ghost_inv : forall l st g, inv st g ->
-    inv (run_state strategy st c l) (fold_left (ghost_step c) (run strategy st c l) g).
+    inv (run_state patched strategy st c l) (fold_left (ghost_step c) (run patched strategy st c l) g).
   Proof.
     induction l as [|o l IH]; intros st g H; [exact H|].
     rewrite run_cons, run_state_cons. cbn [fold_left]. apply IH. apply step_inv. exact H.
   Qed.
 
   Lemma run_app1 : forall l st o,
-    run strategy st c (l ++ [o]) = run strategy st c l ++ [row_of (run_state strategy st c l) o].
+    run patched strategy st c (l ++ [o])
+    = run patched strategy st c l ++ [row_of (run_state patched strategy st c l) o].
   Proof.
     induction l as [|a l IH]; intros st o.
     - cbn [app]. rewrite run_cons. reflexivity.
@@ -326,121 +341,126 @@ Section Gates.
   Qed.
 End Gates.
 
-(* ------------------------------------------------------------------ statements used by Props/C19.v *)
-Theorem allowed_holds : forall strategy c l r, In r (run strategy cstate0 c l) ->
+(* ------------------------------------------------------------------ statements used by Props/C19.v
+   [p] : false = the code as found, true = the code after notes/fixes/selector-zero-time-stability.patch *)
+Theorem allowed_holds : forall p strategy c l r, In r (run p strategy cstate0 c l) ->
   d_mode (r_dec r) = ModeNone \/ is_allowed c (d_mode (r_dec r)) = true.
 Proof.
-  intros strategy c l r Hin.
-  pose proof (run_forall strategy c l cstate0 ghost0 (inv0 c)) as F.
+  intros p strategy c l r Hin.
+  pose proof (run_forall p strategy c l cstate0 ghost0 (inv0 c)) as F.
   rewrite Forall_forall in F. destruct (F r Hin) as [Ha _]. unfold allowed_ok in Ha.
   apply orb_prop in Ha as [Ha|Ha]; [left; apply String.eqb_eq; exact Ha | right; exact Ha].
 Qed.
 
-Theorem allowed_list_holds : forall strategy c l r, In r (run strategy cstate0 c l) ->
+Theorem allowed_list_holds : forall p strategy c l r, In r (run p strategy cstate0 c l) ->
   allowed c <> [] -> d_mode (r_dec r) = ModeNone \/ In (d_mode (r_dec r)) (allowed c).
 Proof.
-  intros strategy c l r Hin Hne. destruct (allowed_holds strategy c l r Hin) as [H|H]; [left; exact H|].
+  intros p strategy c l r Hin Hne. destruct (allowed_holds p strategy c l r Hin) as [H|H]; [left; exact H|].
   right. apply is_allowed_in; assumption.
 Qed.
 
-Theorem min_confidence_holds : forall strategy c l r, In r (run strategy cstate0 c l) ->
+Theorem min_confidence_holds : forall p strategy c l r, In r (run p strategy cstate0 c l) ->
   f64_lt (d_conf (r_dec r)) (min_conf c) = true -> d_mode (r_dec r) = ModeNone.
 Proof.
-  intros strategy c l r Hin Hlt.
-  pose proof (run_forall strategy c l cstate0 ghost0 (inv0 c)) as F.
+  intros p strategy c l r Hin Hlt.
+  pose proof (run_forall p strategy c l cstate0 ghost0 (inv0 c)) as F.
   rewrite Forall_forall in F. destruct (F r Hin) as [_ [Hm _]]. unfold min_conf_ok in Hm.
   rewrite Hlt in Hm. cbn [negb orb] in Hm. apply String.eqb_eq. exact Hm.
 Qed.
 
-Theorem confidence_passthrough : forall strategy c l r, In r (run strategy cstate0 c l) ->
+Theorem confidence_passthrough : forall p strategy c l r, In r (run p strategy cstate0 c l) ->
   d_conf (r_dec r) = s_conf (r_raw r) /\ exists f w, r_raw r = strategy f w.
 Proof.
-  intros strategy c l r Hin.
-  pose proof (run_forall strategy c l cstate0 ghost0 (inv0 c)) as F.
+  intros p strategy c l r Hin.
+  pose proof (run_forall p strategy c l cstate0 ghost0 (inv0 c)) as F.
   rewrite Forall_forall in F. destruct (F r Hin) as [_ [_ [H1 H2]]]. split; assumption.
 Qed.
 
-Theorem confidence_range_any : forall strategy c l r,
+Theorem confidence_range_any : forall p strategy c l r,
   (forall f w, f64_in_unit (s_conf (strategy f w)) = true) ->
-  In r (run strategy cstate0 c l) -> f64_in_unit (d_conf (r_dec r)) = true.
+  In r (run p strategy cstate0 c l) -> f64_in_unit (d_conf (r_dec r)) = true.
 Proof.
-  intros strategy c l r Hs Hin. destruct (confidence_passthrough strategy c l r Hin) as [H1 [f [w H2]]].
+  intros p strategy c l r Hs Hin. destruct (confidence_passthrough p strategy c l r Hin) as [H1 [f [w H2]]].
   rewrite H1, H2. apply Hs.
 Qed.
 
-Theorem confidence_range_builtin : forall c l r,
-  In r (run rule_select cstate0 c l) -> f64_in_unit (d_conf (r_dec r)) = true.
-Proof. intros c l r. apply confidence_range_any. apply rule_select_in_unit. Qed.
+Theorem confidence_range_builtin : forall p c l r,
+  In r (run p rule_select cstate0 c l) -> f64_in_unit (d_conf (r_dec r)) = true.
+Proof. intros p c l r. apply confidence_range_any. apply rule_select_in_unit. Qed.
 
 (* a NaN confidence: never below the minimum (gate 1 does not fire), reported as it is, outside [0,1] *)
-Theorem nan_confidence_passes : forall strategy c st f w now,
+Theorem nan_confidence_passes : forall p strategy c st f w now,
   f64_is_nan (s_conf (strategy f w)) = true ->
-  let d := snd (select_config strategy st c f w now) in
+  let d := snd (select_config p strategy st c f w now) in
   d_kind d <> 1%N /\ d_conf d = s_conf (strategy f w) /\ f64_in_unit (d_conf d) = false
-  /\ (is_allowed c (s_mode (strategy f w)) = true -> is_zero_time (last_time st) = true ->
+  /\ (is_allowed c (s_mode (strategy f w)) = true -> armed p st = false ->
       d_mode d = s_mode (strategy f w)).
 Proof.
-  intros strategy c st f w now Hn. cbn zeta. unfold select_config.
+  intros p strategy c st f w now Hn. cbn zeta. unfold select_config.
   rewrite (nan_not_lt _ (min_conf c) Hn).
   destruct (is_allowed c (s_mode (strategy f w))) eqn:Ea; cbn [negb].
-  - destruct (is_zero_time (last_time st)) eqn:Ez; cbn [negb andb snd d_kind d_conf d_mode].
-    + repeat split; try discriminate; try (apply nan_not_in_unit; exact Hn).
+  - destruct (armed p st) eqn:Ez; cbn [negb andb snd d_kind d_conf d_mode].
     + destruct (_ && _); cbn [snd d_kind d_conf d_mode];
         repeat split; try discriminate; try (apply nan_not_in_unit; exact Hn); intros; discriminate.
+    + repeat split; try discriminate; try (apply nan_not_in_unit; exact Hn).
   - cbn [snd d_kind d_conf d_mode]. repeat split; try discriminate; try (apply nan_not_in_unit; exact Hn).
 Qed.
 
 (* a NaN MinConfidence switches gate 1 off for every strategy *)
-Theorem nan_min_confidence_never_gates : forall strategy c st f w now,
-  f64_is_nan (min_conf c) = true -> d_kind (snd (select_config strategy st c f w now)) <> 1%N.
+Theorem nan_min_confidence_never_gates : forall p strategy c st f w now,
+  f64_is_nan (min_conf c) = true -> d_kind (snd (select_config p strategy st c f w now)) <> 1%N.
 Proof.
-  intros strategy c st f w now Hn. unfold select_config. rewrite (lt_nan_false _ _ Hn).
+  intros p strategy c st f w now Hn. unfold select_config. rewrite (lt_nan_false _ _ Hn).
   destruct (negb _); [discriminate|]. destruct (_ && _ && _); discriminate.
 Qed.
 
-Theorem stability_holds : forall strategy c l, stability_ok c (run strategy cstate0 c l) = true.
-Proof. intros. apply (run_stability strategy c l cstate0 ghost0). apply inv0. Qed.
+Theorem stability_holds : forall p strategy c l, stability_ok p c (run p strategy cstate0 c l) = true.
+Proof. intros. apply (run_stability p strategy c l cstate0 ghost0). apply inv0. Qed.
 
-Theorem dwell_holds : forall strategy c l prev, clock_mono prev l = true ->
-  dwell_ok c (run strategy cstate0 c l) = true.
+Theorem dwell_holds : forall p strategy c l prev, clock_mono p prev l = true ->
+  dwell_ok c (run p strategy cstate0 c l) = true.
 Proof.
-  intros strategy c l prev H. apply (run_dwell strategy c l cstate0 ghost0 prev); [apply inv0 | apply mono_inv0 | exact H].
+  intros p strategy c l prev H.
+  apply (run_dwell p strategy c l cstate0 ghost0 prev); [apply inv0 | apply mono_inv0 | exact H].
 Qed.
 
 (* the readable one-more-call form: after ANY history l, one more call at clock reading [now] *)
-Theorem stability_next : forall strategy c l f w now T m,
-  let t := run strategy cstate0 c l in
-  let r := row_of strategy c (run_state strategy cstate0 c l) (f, w, now) in
-  run strategy cstate0 c (l ++ [(f, w, now)]) = t ++ [r] /\
+Theorem stability_next : forall p strategy c l f w now T m,
+  let t := run p strategy cstate0 c l in
+  let r := row_of p strategy c (run_state p strategy cstate0 c l) (f, w, now) in
+  run p strategy cstate0 c (l ++ [(f, w, now)]) = t ++ [r] /\
   (passes c r = true ->
    g_rec_time (ghost_of c t) = Some T -> g_pass_mode (ghost_of c t) = Some m ->
-   T <> zero_instant -> sat_sub now T < min_stab c ->
+   p = true \/ T <> zero_instant -> sat_sub now T < min_stab c ->
    d_mode (r_dec r) = m).
 Proof.
-  intros strategy c l f w now T m t r. split; [apply run_app1|].
+  intros p strategy c l f w now T m t r. split; [apply run_app1|].
   intros Hp HT Hm Hz Hs.
-  pose proof (fold_ghost_inv strategy c l cstate0 ghost0 (inv0 c)) as I.
-  pose proof (step_stability strategy c _ _ (f, w, now) I) as S.
+  pose proof (fold_ghost_inv p strategy c l cstate0 ghost0 (inv0 c)) as I.
+  pose proof (step_stability p strategy c _ _ (f, w, now) I) as S.
   unfold stability_ok_step in S. fold r in S. rewrite Hp in S.
   fold t in S. fold (ghost_of c t) in S. rewrite HT, Hm in S.
-  assert (E1 : is_zero_time T = false) by (unfold is_zero_time; apply Z.eqb_neq; exact Hz).
+  assert (E1 : p || negb (is_zero_time T) = true).
+  { destruct Hz as [->|Hz]; [reflexivity|]. apply orb_true_iff. right. apply negb_true_iff.
+    unfold is_zero_time. apply Z.eqb_neq. exact Hz. }
   assert (E2 : sat_sub (r_now r) T <? min_stab c = true) by (apply Z.ltb_lt; exact Hs).
   rewrite E1, E2 in S. cbn [negb andb] in S. apply String.eqb_eq. exact S.
 Qed.
 
 (* what the selector remembers: lastMode is the mode returned by the latest gate-passing decision,
    it is an allowed mode, and lastDecisionTime is the clock reading of the latest recorded decision *)
-Theorem memory_invariant : forall strategy c l,
-  let st := run_state strategy cstate0 c l in
-  let g := ghost_of c (run strategy cstate0 c l) in
+Theorem memory_invariant : forall p strategy c l,
+  let st := run_state p strategy cstate0 c l in
+  let g := ghost_of c (run p strategy cstate0 c l) in
   (g_rec_time g = None /\ g_pass_mode g = None /\ st = cstate0) \/
-  (g_rec_time g = Some (last_time st) /\ g_pass_mode g = Some (last_mode st) /\ is_allowed c (last_mode st) = true).
+  (g_rec_time g = Some (last_time st) /\ g_pass_mode g = Some (last_mode st)
+   /\ has_last st = true /\ is_allowed c (last_mode st) = true).
 Proof.
-  intros strategy c l st g.
-  pose proof (fold_ghost_inv strategy c l cstate0 ghost0 (inv0 c)) as I.
-  fold st in I. fold (ghost_of c (run strategy cstate0 c l)) in I. fold g in I.
+  intros p strategy c l st g.
+  pose proof (fold_ghost_inv p strategy c l cstate0 ghost0 (inv0 c)) as I.
+  fold st in I. fold (ghost_of c (run p strategy cstate0 c l)) in I. fold g in I.
   unfold inv in I. destruct (g_rec_time g) as [T|].
-  - right. destruct I as [H1 [H2 [H3 _]]]. subst T. auto.
+  - right. destruct I as [H1 [H2 [H3 [H4 _]]]]. subst T. auto.
   - left. destruct I as [H1 [H2 _]]. auto.
 Qed.
 
@@ -471,13 +491,13 @@ Proof.
 Qed.
 
 (* with the built-in strategy and a MinConfidence that is a number: not (confidence >= min) gives none *)
-Theorem min_confidence_builtin_total : forall c l r, f64_is_nan (min_conf c) = false ->
-  In r (run rule_select cstate0 c l) ->
+Theorem min_confidence_builtin_total : forall p c l r, f64_is_nan (min_conf c) = false ->
+  In r (run p rule_select cstate0 c l) ->
   f64_le (min_conf c) (d_conf (r_dec r)) = false -> d_mode (r_dec r) = ModeNone.
 Proof.
-  intros c l r Hn Hin Hle. apply (min_confidence_holds rule_select c l r Hin).
+  intros p c l r Hn Hin Hle. apply (min_confidence_holds p rule_select c l r Hin).
   apply not_le_lt; [exact Hn | | exact Hle].
-  apply in_unit_not_nan. apply (confidence_range_builtin c l r Hin).
+  apply in_unit_not_nan. apply (confidence_range_builtin p c l r Hin).
 Qed.
 
 (* ------------------------------------------------------------------ refutations and non-vacuity *)
@@ -487,49 +507,54 @@ Definition c_default : constraints := mkConstraints c_0_7 30000000000 [].   (* D
 Definition sec (s : Z) : Z := s * 1000000000.
 
 (* lazy at t=1000 s; at 1020 s the strategy proposes incremental, lazy is kept (stability); at 1031 s
-   incremental is returned: 11 s after the previous gate-passing decision, 31 s after the recorded one *)
+   incremental is returned: 11 s after the previous gate-passing decision, 31 s after the recorded one.
+   Same for the code as found and the repaired code. *)
 Definition w_pairwise : list obs :=
   [ (feat c_0_9 true 0 1000, WorkloadBatchDeletion, sec 1000);
     (feat c_0 false 600000000 1000, WorkloadFrequentWrites, sec 1020);
     (feat c_0 false 600000000 1000, WorkloadFrequentWrites, sec 1031) ].
 
-Lemma pairwise_refuted : exists c l,
-  clock_mono 0 l = true /\ pairwise_ok c None (run rule_select cstate0 c l) = false.
-Proof. exists c_default, w_pairwise. split; vm_compute; reflexivity. Qed.
+Lemma pairwise_refuted : forall p, exists c l,
+  clock_mono p 0 l = true /\ pairwise_ok c None (run p rule_select cstate0 c l) = false.
+Proof. intros p. exists c_default, w_pairwise. destruct p; split; vm_compute; reflexivity. Qed.
 
-Example w_pairwise_modes :
-  map (fun r => (d_mode (r_dec r), d_kind (r_dec r))) (run rule_select cstate0 c_default w_pairwise)
+Example w_pairwise_modes : forall p,
+  map (fun r => (d_mode (r_dec r), d_kind (r_dec r))) (run p rule_select cstate0 c_default w_pairwise)
   = [(ModeLazy, 0%N); (ModeLazy, 3%N); (ModeIncremental, 0%N)].
-Proof. vm_compute. reflexivity. Qed.
+Proof. intros p; destruct p; vm_compute; reflexivity. Qed.
 
-(* a decision recorded while the clock reads 0001-01-01T00:00:00Z is forgotten by the stability gate *)
+(* THE CODE AS FOUND: a decision recorded while the clock reads 0001-01-01T00:00:00Z is forgotten by
+   the stability gate (time.Time{} doubles as "no decision yet"): the strict statement fails *)
 Definition w_zero : list obs :=
   [ (feat c_0_9 true 0 1000, WorkloadBatchDeletion, zero_instant);
     (feat c_0 false 600000000 1000, WorkloadFrequentWrites, zero_instant + sec 1) ].
 
-Lemma zero_instant_refuted : exists c l, stability_strict c (run rule_select cstate0 c l) = false.
-Proof. exists c_default, w_zero. vm_compute. reflexivity. Qed.
+Lemma zero_instant_refuted : exists c l,
+  clock_mono true zero_instant l = true /\ stability_ok true c (run false rule_select cstate0 c l) = false.
+Proof. exists c_default, w_zero. split; vm_compute; reflexivity. Qed.
 
 Example w_zero_modes :
-  map (fun r => (d_mode (r_dec r), d_kind (r_dec r))) (run rule_select cstate0 c_default w_zero)
-  = [(ModeLazy, 0%N); (ModeIncremental, 0%N)].
+  map (fun p => map (fun r => (d_mode (r_dec r), d_kind (r_dec r))) (run p rule_select cstate0 c_default w_zero))
+      [false; true]
+  = [ [(ModeLazy, 0%N); (ModeIncremental, 0%N)];     (* as found: flips after 1 s *)
+      [(ModeLazy, 0%N); (ModeLazy, 3%N)] ].          (* repaired: lazy is kept *)
 Proof. vm_compute. reflexivity. Qed.
 
 (* a custom strategy answering NaN: rebalancing is switched on although "confidence >= 0.7" is false *)
 Definition nan_bits : f64 := 9221120237041090561%N.    (* 0x7FF8000000000001, Go's math.NaN() *)
-Lemma nan_refuted : exists strategy c l r,
-  In r (run strategy cstate0 c l) /\ f64_le (min_conf c) (d_conf (r_dec r)) = false
+Lemma nan_refuted : forall p, exists strategy c l r,
+  In r (run p strategy cstate0 c l) /\ f64_le (min_conf c) (d_conf (r_dec r)) = false
   /\ d_mode (r_dec r) <> ModeNone /\ f64_in_unit (d_conf (r_dec r)) = false.
 Proof.
-  exists (scripted [ModeNone; ModeLazy]), c_default, [(feat nan_bits false 1 1, 1, sec 5)].
-  eexists. split; [left; reflexivity|]. vm_compute. repeat split; discriminate.
+  intros p. exists (scripted [ModeNone; ModeLazy]), c_default, [(feat nan_bits false 1 1, 1, sec 5)].
+  eexists. split; [left; reflexivity|]. destruct p; vm_compute; repeat split; discriminate.
 Qed.
 
 (* non-vacuity: every gate fires, and the accepted path is taken *)
-Example ex_gates :
+Example ex_gates : forall p,
   let c := mkConstraints c_0_7 30000000000 [ModeLazy] in
   map (fun r => (d_mode (r_dec r), d_conf (r_dec r), d_kind (r_dec r), d_cfg (r_dec r)))
-      (run rule_select cstate0 c
+      (run p rule_select cstate0 c
          [ (feat c_0_3 false 0 5, WorkloadMixedRW, sec 10);              (* 0.3 < 0.7: low confidence *)
            (feat c_0_3 false 600000000 1000, WorkloadMixedRW, sec 11);   (* incremental not allowed *)
            (feat c_0_3 false 0 1000, WorkloadMixedRW, sec 12);           (* lazy accepted *)
@@ -537,24 +562,24 @@ Example ex_gates :
            (feat c_0 false 0 50, WorkloadReadHeavy, sec 14) ])           (* 0.65+0.1 = 0.75 *)
   = [ (ModeNone, c_0_3, 1%N, 0%N); (ModeNone, c_0_9, 2%N, 0%N); (ModeLazy, c_0_9, 0%N, 1%N);
       (ModeLazy, 4604480259023595111%N, 0%N, 1%N); (ModeLazy, c_0_75, 0%N, 1%N) ].
-Proof. vm_compute. reflexivity. Qed.
+Proof. intros p; destruct p; vm_compute; reflexivity. Qed.
 
 Example ex_min_conf_ulp :
   (* 0.65 + 0.1 = 0.75 exactly: passes MinConfidence 0.75, fails 0.7500000000000001 *)
-  map (fun mc => d_mode (r_dec (row_of rule_select (mkConstraints mc 0 []) cstate0
+  map (fun mc => d_mode (r_dec (row_of false rule_select (mkConstraints mc 0 []) cstate0
                                  (feat c_0 false 0 50, WorkloadReadHeavy, sec 1))))
       [c_0_75; 4604930618986332161%N]
   = [ModeLazy; ModeNone].
 Proof. vm_compute. reflexivity. Qed.
 
-Example ex_backwards_clock :
+Example ex_backwards_clock : forall p,
   (* the clock jumps back by 100 s: now - last = -100 s < 30 s, the previous mode is kept *)
   map (fun r => (d_mode (r_dec r), d_kind (r_dec r)))
-      (run rule_select cstate0 c_default
+      (run p rule_select cstate0 c_default
          [ (feat c_0_9 true 0 1000, WorkloadBatchDeletion, sec 1000);
            (feat c_0 false 600000000 1000, WorkloadFrequentWrites, sec 900) ])
   = [(ModeLazy, 0%N); (ModeLazy, 3%N)].
-Proof. vm_compute. reflexivity. Qed.
+Proof. intros p; destruct p; vm_compute; reflexivity. Qed.
 
 Example ex_classify :
   map (classify 10)
